@@ -1,7 +1,7 @@
 """C11 - DAQmx raw data is decoded at the declared buffer, stride, offset and type.
 MC: TdmsDaqmx (positions inside their buffer row and chunk; truncated final chunk keeps complete rows).
 GEN: every enumerated configuration (format-changing / digital-line scalers, 1-2 buffers with padding, 1-2 channels
-with 1-2 scalers, chunk counts, both byte orders) is encoded with random buffer bytes; expected raw values are the
+with 1-2 scalers in one or in two buffers, chunk counts, both byte orders) is encoded with random buffer bytes; expected raw values are the
 bytes at the positions the specification computes; eager and lazy reads, every window, chunk streams, and every cut
 of the final chunk are compared."""
 from ..common import Check
@@ -19,10 +19,14 @@ CONFIGS = {
               # a wide buffer followed by a narrow one: a cut inside a row of the first must not spill into the second
               ("TdmsDaqmx", "TdmsDaqmx.cfg", {"Kinds": '{"fc"}', "WidthSet": "{2, 7}", "OffSet": "{0}", "SizeSet": "{2}",
                                               "RowSet": "{2, 3}", "KSet": "{2}", "NBufs": "{2}", "MaxChans": "2"}, 1),
+              # channels whose two scalers lie in two different raw buffers (of equal length): D19
+              ("TdmsDaqmx", "TdmsDaqmx.cfg", {"Split": "TRUE", "NBufs": "{2}", "Kinds": '{"fc"}', "RowSet": "{2}", "KSet": "{2}",
+                                              "OffSet": "{0}", "SizeSet": "{2}", "WidthSet": "{3, 5}", "MaxChans": "2"}, 1),
               # packed rows: multi-byte scalers at offsets that are not multiples of their size, in rows whose width is
               ("TdmsDaqmx", "TdmsDaqmx.cfg", {"Kinds": '{"fc"}', "WidthSet": "{8}", "OffSet": "{1, 3}", "SizeSet": "{2, 4}",
                                               "RowSet": "{2}", "KSet": "{2}", "NBufs": "{1}", "MaxChans": "2"}, 2)],
     "thorough": [("TdmsDaqmx", "TdmsDaqmx.cfg", {}, 1),
+                 ("TdmsDaqmx", "TdmsDaqmx.cfg", {"Split": "TRUE", "NBufs": "{2}", "RowSet": "{1, 3}", "KSet": "{1, 2}"}, 1),
                  ("TdmsDaqmx", "TdmsDaqmx.cfg", {"WidthSet": "{9}", "OffSet": "{1, 5}", "SizeSet": "{4}", "RowSet": "{2}",
                                                  "KSet": "{3}", "Kinds": '{"fc"}'}, 1),
                  ("TdmsDaqmx", "TdmsDaqmx.cfg", {"WidthSet": "{3}", "OffSet": "{0, 9, 15}", "SizeSet": "{1, 2}",
@@ -40,5 +44,6 @@ def run(tier):
                    sample_every=997)
     chk.assumptions += ["raw buffer bytes are pseudo-random; expected values are read at the specification's positions "
                         "with an independent fixed-width decode",
-                        "channels whose scalers lie in different buffers are outside the statement (not generated)"]
+                        "a channel whose scalers lie in different raw buffers is generated only with buffers of equal length "
+                        "(otherwise the channel has no single length)"]
     return chk.finish("model_checking", RULE)
